@@ -187,6 +187,31 @@ theorem prefix_free_needed :
     (((materialise tOverlap mOverlap).getVertex "AB1").toList).length = 1 := by
   refine ⟨by decide, by decide, by decide⟩
 
+/-- A row id with a `-` ("a-b"): the edge is listed, but looking its id up finds nothing. -/
+def tDash : Tables :=
+  [{ name := "T1", rows := [{ id := "a-b" }] }, { name := "T2", rows := [{ id := "1" }] },
+   { name := "L", rows := [{ id := "r1", data := .obj [("f", .str "a-b"), ("t", .str "1")] }] }]
+def mDash : Mapping :=
+  { verts := [{ pfx := "A:", label := "A", table := "T1" }, { pfx := "B:", label := "B", table := "T2" }],
+    edges := [{ name := "E1", frm := "A:", to := "B:", label := "k", table := "L", fromField := "f", toField := "t" }] }
+
+def rowCount (r : Except TypeErr (List Row)) : Nat :=
+  match r with
+  | .ok rows => rows.length
+  | .error _ => 0
+
+/-- OPEN FINDING C15-edge-id-dash: the full-strength `traversal_eq` (without the `plainStmt`
+    hypothesis) is false.  On a prefix-free, accepted mapping, `E("A:a-b-k-B:1")` returns the edge on
+    the materialised graph and nothing on the gripper graph (ParseEdge splits the id at every `-`),
+    although `E()` lists exactly that id. -/
+theorem traversal_eq_fails_on_dash_ids :
+    PrefixFree mDash ∧ configOk tDash mDash = true ∧
+    (tgEdgeList tDash mDash).map (·.gid) = ["A:a-b-k-B:1"] ∧
+    rowCount (runT (fun _ => none) tDash mDash [.E ["A:a-b-k-B:1"]]) = 0 ∧
+    rowCount (run (fun _ => none) (materialise tDash mDash) [.E ["A:a-b-k-B:1"]]) = 1 ∧
+    dashLookup [.E ["A:a-b-k-B:1"]] = true := by
+  refine ⟨by decide, by decide, by decide, by decide, by decide, by decide⟩
+
 def tEx : Tables :=
   [{ name := "T1", rows := [{ id := "1" }, { id := "2" }] },
    { name := "T2", rows := [{ id := "1" }] },
